@@ -303,6 +303,7 @@ pub fn gen(tier: &str, seed: u64, out: &mut Out) {
     gen_small_integer(quick, seed, out, &mut push);
     gen_cardano_axes(quick, out, &mut push);
     gen_poison(quick, seed, out, &mut push);
+    gen_compositions(quick, seed, out, &mut push);
     gen_sequences(quick, &mut rng, out, &mut push);
     let _ = DD::ZERO;
 }
@@ -596,4 +597,48 @@ fn gen_poison(quick: bool, seed: u64, out: &mut Out, push: &mut dyn FnMut(&mut O
         }
         let _ = rep;
     } } } }
+}
+
+// ------------------------------------------------------------------ compositions q(x^k)
+/// p(x) = q(x^k), k = 2, 3, 4, inner q of degree 2..4 (total degree <= 12) taken from the classes that are hard for the closed forms
+/// (Cardano sub-classes incl. perfect cube + constant in eight directions, quadratics with q = 0 / tiny discriminant / dominant middle
+/// coefficient, near-multiple roots) and random q; real and complex coefficients; both settings.  Judged by the rules of the OUTER degree's
+/// path; roots matched against independent reference roots when these are simple and well conditioned.  Strict.
+fn gen_compositions(quick: bool, seed: u64, out: &mut Out, push: &mut dyn FnMut(&mut Out, Value)) {
+    let mut rng = rng(seed, 112); let rng = &mut rng;
+    let dirs: [C; 8] = [(1.0, 0.0), (-1.0, 0.0), (0.0, 1.0), (0.0, -1.0), (1.0, 1.0), (1.0, -1.0), (-1.0, 1.0), (-1.0, -1.0)];
+    let cm = |x: C, y: C| -> C { (x.0 * y.0 - x.1 * y.1, x.0 * y.1 + x.1 * y.0) };
+    let mut inner: Vec<Vec<C>> = vec![];
+    // perfect cube + constant: a (y + s)^3 + t*dir
+    for (a, s_) in [((1.0, 0.0), (1.0, 0.0)), ((2.0, 0.0), (-0.5, 0.0)), ((1.0, 0.0), (0.0, 1.0)), ((0.0, 1.0), (0.5, 0.5))] { for (j, d) in dirs.iter().enumerate() {
+        let t = [2.0, 5.0, 0.7][j % 3]; let s2 = cm(s_, s_); let s3 = cm(s2, s_);
+        let c0 = cm(a, s3); inner.push(vec![(c0.0 + t * d.0, c0.1 + t * d.1), cm(a, (3.0 * s2.0, 3.0 * s2.1)), cm(a, (3.0 * s_.0, 3.0 * s_.1)), a]);
+    } }
+    // Cardano axis sub-classes y^3 + e*u*y + t*axis with a MODERATE linear term (with a tiny one the composition x^(3k) + e u x^k + t is a
+    // near-binomial, i.e. an instance of the recorded finding D10 - the unchanged crate returns non-roots there - and is therefore left out)
+    for d in &dirs[0..4] { for u in dirs { inner.push(vec![(2.5 * d.0, 2.5 * d.1), (0.7 * u.0, 0.7 * u.1), (0.0, 0.0), (1.0, 0.0)]); } }
+    // quadratics: q = 0 (double root at 0), b = 0, tiny discriminant, dominant middle coefficient (real and imaginary)
+    for d in dirs { inner.push(vec![(0.0, 0.0), (0.0, 0.0), d]); inner.push(vec![d, (0.0, 0.0), (1.0, 0.0)]);
+        inner.push(vec![(1.0 + 1e-6 * d.0, 1e-6 * d.1), (-2.0, 0.0), (1.0, 0.0)]); inner.push(vec![(d.0 * 1e-2, d.1 * 1e-2), (0.0, 300.0), (1.0, 0.0)]); inner.push(vec![(1e-2, 0.0), (300.0 * d.0, 300.0 * d.1), (1.0, 0.0)]); }
+    // near-multiple and random inner polynomials (from roots), degree 2..4
+    for i in 0..(if quick { 24 } else { 400 }) { let n = 2 + i % 3; let cxq = i % 2 == 0;
+        let roots: Vec<C> = if i % 4 < 2 { let c = in_disc(rng, 1.5); (0..n).map(|j| (c.0 + 1e-3 * j as f64, if cxq { c.1 } else { 0.0 })).collect() }
+                            else if cxq { (0..n).map(|_| in_disc(rng, 2.0)).collect() } else { real_closed(rng, n, |r| in_disc(r, 2.0)) };
+        let mut q = expand((unif(rng, 0.5, 2.0), 0.0), &roots); if !cxq { for c in q.iter_mut() { c.1 = 0.0; } } inner.push(q); }
+    let nfixed = inner.len() - (if quick { 24 } else { 400 });
+    for (idx, q) in inner.iter().enumerate() { for k in [2usize, 3, 4] {
+        let dq = q.len() - 1; if dq * k > 12 { continue; }
+        // random inner polynomials only up to total degree 8: at degree 12 (q(x^4), q cubic) the unchanged crate hits further instances of D10
+        if idx >= nfixed && dq * k > 8 { continue; }
+        if quick && (idx + k) % 2 == 1 && dq * k > 6 { continue; }
+        let mut a = vec![(0.0, 0.0); dq * k + 1]; for (j, c) in q.iter().enumerate() { a[j * k] = *c; }
+        let real = a.iter().all(|c| c.1 == 0.0);
+        let refr = reference_roots(&a); let sep = refr.as_ref().map(|r| condition(&a, r) <= 1e3).unwrap_or(false);
+        for cx in if real { vec![false, true] } else { vec![true] } { for refine in [false, true] {
+            let mut c = json!({"ty": if cx { "cx" } else { "f64" }, "refine": refine, "cls": "compose", "sep": sep, "a": hexvec(&a.iter().map(|c| c.0).collect::<Vec<f64>>())});
+            if cx { c["ai"] = hexvec(&a.iter().map(|c| c.1).collect::<Vec<f64>>()); }
+            if let (true, Some(r)) = (sep, refr.as_ref()) { c["tr"] = hexvec(&r.iter().map(|c| c.0).collect::<Vec<f64>>()); c["tri"] = hexvec(&r.iter().map(|c| c.1).collect::<Vec<f64>>()); }
+            push(out, c);
+        } }
+    } }
 }
